@@ -10,3 +10,4 @@ INVARIANT P_RoundTrip
 INVARIANT P_NormOrder
 INVARIANT P_Malformed
 INVARIANT P_WellFormedAccepted
+INVARIANT P_SafeBound
